@@ -11,9 +11,9 @@ CONSTANT Strength           \* 1 = single deviations, 2 = pairs as well
 Features == [ nl |-> {"LF", "CRLF", "CR"}, indent |-> {"2", "0", "tab"}, ann |-> {"inline", "block", "spread"},
               hashOwn |-> {"no", "yes"}, hashTrail |-> {"no", "yes"}, hashBlock |-> {"no", "yes"}, quoted |-> {"no", "yes"},
               trailComma |-> {"no", "yes"}, reversed |-> {"no", "yes"}, emptyPad |-> {"no", "yes"}, note |-> {"no", "yes"},
-              colonPad |-> {"no", "yes"}, noteTab |-> {"no", "yes"} ]
+              colonPad |-> {"no", "yes"}, noteTab |-> {"no", "yes"}, ruleSep |-> {"no", "tab", "break"} ]
 House == [ nl |-> "LF", indent |-> "2", ann |-> "inline", hashOwn |-> "no", hashTrail |-> "no", hashBlock |-> "no", quoted |-> "no",
-           trailComma |-> "no", reversed |-> "no", emptyPad |-> "no", note |-> "no", colonPad |-> "no", noteTab |-> "no" ]
+           trailComma |-> "no", reversed |-> "no", emptyPad |-> "no", note |-> "no", colonPad |-> "no", noteTab |-> "no", ruleSep |-> "no" ]
 Names == DOMAIN Features
 Deviations(l) == {f \in Names : l[f] # House[f]}
 Vary(S) == UNION {UNION {{[l EXCEPT ![f] = v] : v \in Features[f]} : f \in Names} : l \in S}
@@ -25,7 +25,11 @@ AnnPairs == {[[House EXCEPT !.ann = a] EXCEPT ![f] = "yes"] : a \in {"block", "s
 \* a note interacts with what may follow it on the line (a '#' comment, under every line end) and with what separates it from the rules
 NotePairs == {[[[House EXCEPT !.note = "yes"] EXCEPT ![f] = "yes"] EXCEPT !.nl = n] : f \in {"hashTrail", "noteTab", "trailComma"}, n \in {"LF", "CRLF", "CR"}}
              \cup {[[House EXCEPT !.noteTab = "yes"] EXCEPT !.ann = a] : a \in {"block", "spread"}}
-Layouts == IF Strength = 1 THEN Vary({House}) \cup LineEndPairs \cup AnnPairs \cup NotePairs ELSE Vary(Vary({House})) \cup NotePairs
+\* the value of a rule on the line after its name: in the annotations that may span lines, with every line end; tabs with quoted names too
+RulePairs == {[[[House EXCEPT !.ruleSep = "break"] EXCEPT !.ann = a] EXCEPT !.nl = n] : a \in {"block", "spread"}, n \in {"LF", "CRLF", "CR"}}
+             \cup {[[House EXCEPT !.ruleSep = "tab"] EXCEPT ![f] = "yes"] : f \in {"quoted", "reversed", "trailComma"}}
+             \cup {[[House EXCEPT !.ruleSep = "tab"] EXCEPT !.ann = a] : a \in {"block", "spread"}}
+Layouts == IF Strength = 1 THEN Vary({House}) \cup LineEndPairs \cup AnnPairs \cup NotePairs \cup RulePairs ELSE Vary(Vary({House})) \cup NotePairs \cup RulePairs
 
 \* document re-spellings that keep the JSON value
 DocSpellings == { [ws |-> w, order |-> o, esc |-> e] : w \in {"compact", "spaced", "lines"}, o \in {"same", "reversed"}, e \in {"plain", "unicode", "slash"} }
